@@ -171,6 +171,11 @@ def _run_structural(ctx):
     from .persist import rule_close_writes
     rule_tracked_dump(ctx, r3)
     rule_close_writes(ctx, r3, ("tracked jobs",))
+    from .evalhelpers import cached_witness, report_witness
+    from .schedmodel import cluster_witness
+    report_witness(r3, "src/gwf/backends::<X>Ops.get_job_states::scheduler-model", "src/gwf/backends/slurm.py:1", cached_witness(ctx, "cluster", cluster_witness),
+                   "a pending or running job is reported as such whatever the environment says the user is called, with accounting on and off",
+                   select=lambda d: d.startswith("[states]") and "changes the queue" not in d)
     rule_cone_selection(ctx, r3)
     rule_hash_after_accept(ctx, r3)
 
